@@ -46,4 +46,45 @@ pub mod write_trait {
                 r is Err ==> exists|k: int| 0 <= k <= buf@.len() && final(self).wr_sink(*final(w)) == old(self).wr_sink(*old(w)) + buf@.subrange(0, k),
         { unimplemented!() }
     }
+
+    /// futures::io::AsyncWrite / tokio::io::AsyncWrite after R21 (Pin receivers -> &mut self),
+    /// with the same trait-level contract as `Write`, in Poll form: Pending changes nothing.
+    /// `write_all` (AsyncWriteExt, after R2) is the provided method.  ASSUMED: it polls
+    /// `poll_write` on the unwritten rest until everything is accepted or an error is returned.
+    pub trait AsyncWrite: Sized {
+        spec fn wr_inv(&self, w: World) -> bool;
+        spec fn wr_sink(&self, w: World) -> Seq<u8>;
+        spec fn wr_step(pre_s: Self, pre: World, post_s: Self, post: World) -> bool;
+        proof fn wr_step_refl(s: Self, w: World)
+            ensures Self::wr_step(s, w, s, w);
+        proof fn wr_step_trans(a: Self, wa: World, b: Self, wb: World, c: Self, wc: World)
+            requires Self::wr_step(a, wa, b, wb), Self::wr_step(b, wb, c, wc)
+            ensures Self::wr_step(a, wa, c, wc);
+
+        fn poll_write(&mut self, cx: &mut crate::shims::std::task::Context<'_>, buf: &[u8], Tracked(w): Tracked<&mut World>) -> (r: crate::shims::std::task::Poll<io::Result<usize>>)
+            requires old(self).wr_inv(*old(w)),
+            ensures
+                final(self).wr_inv(*final(w)),
+                Self::wr_step(*old(self), *old(w), *final(self), *final(w)),
+                r is Ready && r->Ready_0 is Ok ==> r->Ready_0->Ok_0 <= buf@.len()
+                    && final(self).wr_sink(*final(w)) == old(self).wr_sink(*old(w)) + buf@.subrange(0, r->Ready_0->Ok_0 as int),
+                !(r is Ready && r->Ready_0 is Ok) ==> final(self).wr_sink(*final(w)) == old(self).wr_sink(*old(w));
+
+        fn poll_flush(&mut self, cx: &mut crate::shims::std::task::Context<'_>, Tracked(w): Tracked<&mut World>) -> (r: crate::shims::std::task::Poll<io::Result<()>>)
+            requires old(self).wr_inv(*old(w)),
+            ensures
+                final(self).wr_inv(*final(w)),
+                Self::wr_step(*old(self), *old(w), *final(self), *final(w)),
+                final(self).wr_sink(*final(w)) == old(self).wr_sink(*old(w));
+
+        #[verifier::external_body]
+        fn write_all(&mut self, buf: &[u8], Tracked(w): Tracked<&mut World>) -> (r: io::Result<()>)
+            requires old(self).wr_inv(*old(w)),
+            ensures
+                final(self).wr_inv(*final(w)),
+                Self::wr_step(*old(self), *old(w), *final(self), *final(w)),
+                r is Ok ==> final(self).wr_sink(*final(w)) == old(self).wr_sink(*old(w)) + buf@,
+                r is Err ==> exists|k: int| 0 <= k <= buf@.len() && final(self).wr_sink(*final(w)) == old(self).wr_sink(*old(w)) + buf@.subrange(0, k),
+        { unimplemented!() }
+    }
 }
